@@ -116,6 +116,8 @@ class CollectGen:
 
     def do_yield(self, v):
         interp = self.interp
+        if isinstance(v, (SOpt, SChoice)):
+            v = interp.resolve(v)           # e.g. `if x is not None: yield x`
         src = None
         # position of the innermost symbolic loop, if any (for the `src` / `pos_of` ghost maps)
         if interp.loop_index_stack:
